@@ -86,7 +86,7 @@ pub fn explore(ctx: &Ctx) {
     ctx.assume("a prayer is compared only if its anchor event (its own transit/rise/set, or the Dhuhr / Shurooq / Maghrib it is derived from) stays at least 300 s inside the 24 h local-midnight window in both calls; otherwise the two calls report different physical events (yesterday's/tomorrow's) - outside what the property compares");
     ctx.assume("differences of truncated whole seconds: |observed| <= 10 is implied by a true difference <= 10 s");
     let lats: Vec<f64> = if quick { vec![0.0, 30.0, -30.0, 45.0, -45.0] } else { vec![0.0, 15.0, -15.0, 30.0, -30.0, 45.0, -45.0] };
-    let lon_step = if quick { 60.0 } else { 15.0 };
+    let lon_step = if quick { 60.0 } else { 30.0 };
     let mut sites = vec![];
     let mut lon = -180.0;
     while lon <= 180.0 {
@@ -137,7 +137,7 @@ pub fn explore(ctx: &Ctx) {
     });
     // part 3: every date for a subset of the sites
     {
-        let few: Vec<Site> = if quick { vec![Site::new(45.0, 0.0, 0.0, 0.0), Site::new(-45.0, 135.0, 0.0, 11.0)] } else { sites.iter().cloned().step_by(9).collect() };
+        let few: Vec<Site> = if quick { vec![Site::new(45.0, 0.0, 0.0, 0.0), Site::new(-45.0, 135.0, 0.0, 11.0)] } else { sites.iter().cloned().step_by(11).collect() };
         ctx.alphabet("part3", json!({"sites": few, "dates": all.len()}));
         let mut jobs3 = vec![];
         for s in &few {
